@@ -82,7 +82,7 @@ def run(ctx):
                                'harness projection']
     ctx.assumptions += ['worker counts change the partial sums of the statistics stage (different work split), '
                         'so that comparison is left to C09 (to rounding); every other comparison is bitwise']
-    combos = [(3, 2), (2, 1), (3, 3)] if quick else [(2, 1), (3, 1), (3, 2), (3, 3), (4, 2), (4, 3), (4, 4)]
+    combos = [(3, 2), (2, 1), (4, 3)] if quick else [(2, 1), (3, 1), (3, 2), (3, 3), (4, 2), (4, 3), (4, 4)]
     if ctx.only in (None, 'mc'):
         for N, P in combos:
             cfg = (f'SPECIFICATION FairSpec\nCONSTANTS N = {N} P = {P} FaultKs = {{0}} '
